@@ -94,10 +94,68 @@ impl CpuKind {
     pub fn narrow(self) -> bool {
         matches!(self, CpuKind::X86 | CpuKind::Arm | CpuKind::Ppc)
     }
+    /// The CPU-identifying bit of `context_flags` (winnt.h / Breakpad `MD_CONTEXT_<cpu>`); it lies inside
+    /// the documented CPU mask 0xffffff00, everything below the mask says which parts of the context
+    /// the writer filled in and does not take part in identifying the CPU.
+    pub fn cpu_flag(self) -> u32 {
+        match self {
+            CpuKind::X86 => 0x0001_0000,
+            CpuKind::Amd64 => 0x0010_0000,
+            CpuKind::Arm => 0x4000_0000,
+            CpuKind::Arm64 => 0x0040_0000,
+            CpuKind::Arm64Old => 0x8000_0000,
+            CpuKind::Ppc => 0x2000_0000,
+            CpuKind::Ppc64 => 0x0100_0000,
+            CpuKind::Sparc => 0x1000_0000,
+            CpuKind::Mips => 0x0004_0000,
+        }
+    }
+    /// The documented part flags (single low bits) of the CPU: control / integer / segments / floating
+    /// point / debug registers / extended registers / xstate for x86 and amd64 (winnt.h; 0x40 is
+    /// CONTEXT_XSTATE = `CONTEXT_HAS_XSTATE`, "x86 and x64 contexts have this bit set ... when they have
+    /// extra XSTATE"), control / integer / floating point / debug / x18 for arm64, and the Breakpad
+    /// `MD_CONTEXT_<cpu>_*` parts for the others.
+    pub fn part_flags(self) -> &'static [u8] {
+        match self {
+            CpuKind::X86 | CpuKind::Amd64 => &[0x01, 0x02, 0x04, 0x08, 0x10, 0x20, 0x40],
+            CpuKind::Arm => &[0x01, 0x02, 0x04, 0x08],
+            CpuKind::Arm64 => &[0x01, 0x02, 0x04, 0x08, 0x10],
+            CpuKind::Arm64Old => &[0x02, 0x04],
+            CpuKind::Ppc | CpuKind::Ppc64 => &[0x01, 0x02, 0x04],
+            CpuKind::Sparc => &[0x01, 0x02, 0x04, 0x08],
+            CpuKind::Mips => &[0x02, 0x04, 0x08],
+        }
+    }
+    /// Low flag bits `ContextM::new` uses (what a writer of a complete context of that CPU sets).
+    pub fn default_low_flags(self) -> u8 {
+        match self {
+            CpuKind::X86 => 0x3f,
+            CpuKind::Amd64 | CpuKind::Arm64 => 0x1f,
+            CpuKind::Arm => 0x0f,
+            CpuKind::Arm64Old => 0x06,
+            CpuKind::Ppc | CpuKind::Ppc64 | CpuKind::Sparc | CpuKind::Mips => 0x07,
+        }
+    }
+    /// Menu of legal low-flag bytes: none (the CPU bit alone), every documented part alone, all
+    /// documented parts together, the default of `ContextM::new`, and every bit below the CPU mask.
+    pub fn low_flags_menu(self) -> Vec<u8> {
+        let mut v = vec![0u8];
+        v.extend_from_slice(self.part_flags());
+        v.push(self.part_flags().iter().fold(0, |a, b| a | b));
+        v.push(self.default_low_flags());
+        v.push(0xff);
+        let mut out: Vec<u8> = vec![];
+        for x in v {
+            if !out.contains(&x) {
+                out.push(x);
+            }
+        }
+        out
+    }
 }
 
 /// A CPU context: every byte of the layout comes from a fill pattern, except `context_flags`
-/// (the value the layout's CPU requires), the instruction pointer and the stack pointer.
+/// (the CPU bit of the layout plus `low_flags`), the instruction pointer and the stack pointer.
 #[derive(Clone, Debug, PartialEq, Eq, Hash)]
 pub struct ContextM {
     pub kind: CpuKind,
@@ -105,6 +163,9 @@ pub struct ContextM {
     pub fill: u8,
     pub ip: u64,
     pub sp: u64,
+    /// the bits of `context_flags` below the CPU mask 0xffffff00 (which parts of the context are
+    /// present); the rest of `context_flags` is `kind.cpu_flag()`. Ignored with `via_synth`.
+    pub low_flags: u8,
     /// use the writer of minidump-synth (x86, amd64, arm64 only; implies fill 0)
     pub via_synth: bool,
 }
@@ -160,7 +221,17 @@ pub fn raw_context_le(raw: &MinidumpRawContext) -> (CpuKind, Vec<u8>) {
 impl ContextM {
     pub fn new(kind: CpuKind, fill: u8, ip: u64, sp: u64) -> ContextM {
         let m = if kind.narrow() { 0xffff_ffff } else { u64::MAX };
-        ContextM { kind, fill, ip: ip & m, sp: sp & m, via_synth: false }
+        ContextM { kind, fill, ip: ip & m, sp: sp & m, low_flags: kind.default_low_flags(), via_synth: false }
+    }
+    /// The same context with other part flags (bits below the CPU mask) in `context_flags`.
+    pub fn with_low_flags(mut self, low: u8) -> ContextM {
+        assert!(!self.via_synth, "synth writes its own context_flags");
+        self.low_flags = low;
+        self
+    }
+    /// The `context_flags` value written (not meaningful with `via_synth`).
+    pub fn context_flags(&self) -> u32 {
+        self.kind.cpu_flag() | self.low_flags as u32
     }
     pub fn synth(kind: CpuKind, ip: u64, sp: u64) -> ContextM {
         assert!(matches!(kind, CpuKind::X86 | CpuKind::Amd64 | CpuKind::Arm64), "synth has no writer for {kind:?}");
@@ -171,6 +242,7 @@ impl ContextM {
     /// The context record in byte order `e`.
     pub fn bytes(&self, e: Endian) -> Vec<u8> {
         let (ip, sp, f, se) = (self.ip, self.sp, self.fill, scroll_endian(e));
+        let flags = self.context_flags();
         if self.via_synth {
             let s = match self.kind {
                 CpuKind::X86 => synth::x86_context(e, ip as u32, sp as u32),
@@ -182,47 +254,47 @@ impl ContextM {
         }
         match self.kind {
             CpuKind::X86 => build_ctx::<md::CONTEXT_X86>(f, se, |c| {
-                c.context_flags = 0x0001_003f;
+                c.context_flags = flags;
                 c.eip = ip as u32;
                 c.esp = sp as u32;
             }),
             CpuKind::Amd64 => build_ctx::<md::CONTEXT_AMD64>(f, se, |c| {
-                c.context_flags = 0x0010_001f;
+                c.context_flags = flags;
                 c.rip = ip;
                 c.rsp = sp;
             }),
             CpuKind::Arm => build_ctx::<md::CONTEXT_ARM>(f, se, |c| {
-                c.context_flags = 0x4000_000f;
+                c.context_flags = flags;
                 c.iregs[15] = ip as u32;
                 c.iregs[13] = sp as u32;
             }),
             CpuKind::Arm64 => build_ctx::<md::CONTEXT_ARM64>(f, se, |c| {
-                c.context_flags = 0x0040_001f;
+                c.context_flags = flags;
                 c.pc = ip;
                 c.sp = sp;
             }),
             CpuKind::Arm64Old => build_ctx::<md::CONTEXT_ARM64_OLD>(f, se, |c| {
-                c.context_flags = 0x8000_0006;
+                c.context_flags = flags as u64;
                 c.pc = ip;
                 c.sp = sp;
             }),
             CpuKind::Ppc => build_ctx::<md::CONTEXT_PPC>(f, se, |c| {
-                c.context_flags = 0x2000_0007;
+                c.context_flags = flags;
                 c.srr0 = ip as u32;
                 c.gpr[1] = sp as u32;
             }),
             CpuKind::Ppc64 => build_ctx::<md::CONTEXT_PPC64>(f, se, |c| {
-                c.context_flags = 0x0100_0007;
+                c.context_flags = flags as u64;
                 c.srr0 = ip;
                 c.gpr[1] = sp;
             }),
             CpuKind::Sparc => build_ctx::<md::CONTEXT_SPARC>(f, se, |c| {
-                c.context_flags = 0x1000_0007;
+                c.context_flags = flags;
                 c.pc = ip;
                 c.g_r[14] = sp;
             }),
             CpuKind::Mips => build_ctx::<md::CONTEXT_MIPS>(f, se, |c| {
-                c.context_flags = 0x0004_0007;
+                c.context_flags = flags;
                 c.epc = ip;
                 c.iregs[29] = sp;
             }),
